@@ -16,6 +16,7 @@
 -/
 import ASV.Model.WriteSafety
 namespace ASV.WriteSafety
+open ASV.PosixPath (Path)
 
 /-! ### faults, irrespective of where the conversion would meet them -/
 
@@ -71,9 +72,9 @@ end
 
 def ModSpec.faulty : ModSpec → Bool
   | .none => false
-  | .mod v => v.faulty
-  | .raises _ => true
-  | .invalid => true
+  | .mod _ v => v.faulty
+  | .raises _ _ => true
+  | .invalid _ => true
 
 def dictFaulty (m : ModDict) : Bool := m.any fun kv => kv.2.faulty
 
@@ -85,8 +86,8 @@ def conversionFault (records : List RecSpec) (results : List ModDict) : Bool :=
 /-- a conversion *call* raises (`to_json()` of a module or the record's own conversion, a value of
     the wrong type, a missing `results[i]`) — the only faults when nothing is serialised -/
 def ModSpec.raising : ModSpec → Bool
-  | .raises _ => true
-  | .invalid => true
+  | .raises _ _ => true
+  | .invalid _ => true
   | _ => false
 
 def callFault (records : List RecSpec) (results : List ModDict) : Bool :=
@@ -115,7 +116,7 @@ def injectAt : List ModDict → Nat → Nat → ModSpec → List ModDict
 /-- `"modules": {name: to_json(), …}` of one record, `None` entries left out -/
 def modsDoc : ModDict → Bytes
   | [] => []
-  | (k, .mod v) :: rest => .key k :: denote v ++ modsDoc rest
+  | (k, .mod _ v) :: rest => .key k :: denote v ++ modsDoc rest
   | _ :: rest => modsDoc rest
 
 def recordsDoc : List ModDict → Bytes
@@ -185,9 +186,32 @@ def specDumpRecords (records : List RecSpec) (results : List ModDict) (h : Handl
 
 /-! ### the output directory -/
 
+/-- the lexical identity of a path: how many leading slashes survive, and the components that remain
+    after resolving `.`, `..` and repeated slashes against the working directory -/
+def denotes (cwd q : Path) : Nat × List Path :=
+  (PosixPath.leadSlashes (PosixPath.absArg cwd q),
+   PosixPath.normComps true (PosixPath.splitSlash (PosixPath.absArg cwd q)))
+
+/-- the entry is the file the run logs to: a log file was requested and both paths denote the same
+    place — not merely similar names, not a directory above it -/
+def isLogFile (p : PrepIn) (e : Entry) : Bool :=
+  p.logfile != "" && decide (denotes p.cwd.toList (entryPath p e) = denotes p.cwd.toList p.logfile.toList)
+
 /-- antiSMASH's own input copy (the directory `input`) or its log file -/
-def allowed (logName : Option String) (e : Entry) : Bool :=
-  (e.name == "input" && e.isDir) || logName == some e.name
+def allowed (p : PrepIn) (e : Entry) : Bool :=
+  (e.name == "input" && e.isDir) || isLogFile p e
+
+/-- a name as `os.listdir` yields it -/
+def plainName (n : Path) : Bool := n != [] && n != PosixPath.dot && n != PosixPath.dotdot && !n.contains '/'
+
+/-- what the operating system and the function's own guard (`if not name: name = …`) guarantee:
+    the working directory is absolute, the directory argument is not empty, listing entries are
+    plain names -/
+def PrepIn.WF (p : PrepIn) : Bool :=
+  PosixPath.isabs p.cwd.toList && !p.name.toList.isEmpty &&
+    match p.target with
+    | .dir es => es.all fun e => plainName e.name.toList
+    | _ => true
 
 /-- documented pattern: `<anything>.region<three characters>.gbk`, not a hidden file -/
 def RegionGbkName (n : String) : Prop :=
@@ -200,7 +224,7 @@ def specAccepts (p : PrepIn) : Bool :=
   match p.target with
   | .absent => true
   | .file => false
-  | .dir es => reuseMode p || es.all (allowed p.logName)
+  | .dir es => reuseMode p || es.all (allowed p)
 
 /-- a refusal leaves everything as it was and attempts nothing -/
 def refusedUntouched (p : PrepIn) (o : PrepOut) : Bool :=
